@@ -467,6 +467,9 @@ func (f *Composite) packByBitmap() ([]byte, error) {
 
 		// set bitmap bit for this field
 		f.bitmap().Set(idInt)
+		if !f.bitmap().IsSet(idInt) {
+			return nil, fmt.Errorf("failed to pack subfield %s: bitmap cannot represent it", id)
+		}
 
 		field, ok := f.subfields[id]
 		if !ok {
